@@ -43,6 +43,8 @@ checks["C19"]=dict(level="model_checking",engine="gosim",design="4/C19",techniqu
   text="A real Client against a real Server over per-dial virtual TCP connections suffers each fault kind (server finish/fail, abrupt close, half-close, undecodable bytes, non-envelope JSON, oversized envelope) idle or concurrently with a send, at every position within the deviation bound; afterwards a fresh session must exist, a server message must reach the handler, no goroutine may spin, successful sends must have hit the wire of a live session, and Close must leave nothing behind.")
 checks["C17"]=dict(level="model_checking",engine="gosim",design="4/C17",technique=SCHED_TECH,
   text="2-3 concurrent real clients with distinct identities on one real Server (TCP over virtual pipes mixed with the in-process listener), Register assigning distinct addresses, handlers replying through their Sender; every schedule within the deviation bound including the handshakes; each handler's context must carry its own session's id and nodes, replies must reach only their own client, ids must be distinct and equal to the announced ones.")
+checks["C15"]=dict(level="model_checking",engine="gosim",design="4/C15",technique=SCHED_TECH,
+  text="Each context-taking blocking operation (transport Send/Receive, in-process Accept, the four channel sends, ProcessCommand, client FinishSession, client and server EstablishSession at every stage including a stalled TLS upgrade) is run in isolation on the in-process and TCP transports against a silent / non-consuming peer, with its context ended by deadline or by cancellation from another goroutine; on the virtual clock (which only advances when everything is blocked) the call must return an error at the deadline, or within the 5s poll interval after a cancellation (0 in-process).")
 na_reason={}
 m={"version":1,
  "setup_cmd":"./setup.sh",
